@@ -101,3 +101,18 @@ def tactic_orders(rng, n_perm=3, with_empty=True):
         k = rng.randint(2, 5)
         out.append(rng.sample(TACTIC_DEFAULT, k))
     return out
+
+
+class Pinned:
+    """Context wrapper that hands out pinned (concrete) constants instead of symbols for the given names."""
+
+    def __init__(self, ctx, conc):
+        self._ctx, self._conc = ctx, conc
+
+    def __getattr__(self, n):
+        return getattr(self._ctx, n)
+
+    def const(self, name, lo=None, hi=None):
+        if name in self._conc:
+            return float(self._conc[name])
+        return self._ctx.const(name, lo, hi)
